@@ -109,3 +109,34 @@ def stream_hook(module, cfg_by_tier):
         rc = RECIPES[prop]
         run_stream_behaviours(prop, tier, seed, cov, violations, module, cfg_by_tier[tier], rc.get("reasons"), rc.get("tags"))
     return fn
+
+
+def apalache_induction(prop, tier, seed, cov, violations):
+    """Thorough tier only: inductive proof (Apalache) that CacheSound /\\ ResultOk hold in every reachable state of the
+    cache design, for any number of calls / faults / chunkings and any contents of a 5-cell stream; plus its negative
+    control (insert-before-read must break the induction).  A statement about the design (spec/apalache/StreamInd.tla);
+    conformance of the code to the design is what the replayed behaviours and validated traces check."""
+    import subprocess, shutil, time
+    if tier != "thorough":
+        return
+    d = os.path.join(vlib.SPEC, "apalache")
+    out = os.path.join(vlib.WORK, "apalache-out")
+    res = {}
+    for name, args, want in (("base", ["--init=Init", "--inv=IndInv", "--length=0", "StreamInd.tla"], "NoError"),
+                             ("step", ["--init=IndInit", "--inv=IndInv", "--length=1", "StreamInd.tla"], "NoError"),
+                             ("negative_control_step", ["--init=IndInit", "--inv=IndInv", "--length=1", "StreamIndNeg.tla"], "Error")):
+        t0 = time.time()
+        try:
+            p = subprocess.run(["apalache-mc", "check", "--out-dir=" + out] + args, cwd=d, stdout=subprocess.PIPE,
+                               stderr=subprocess.STDOUT, text=True, timeout=3000)
+            m = [l for l in p.stdout.split("\n") if "The outcome is:" in l]
+            outcome = m[-1].split("The outcome is:")[1].split()[0] if m else "?"
+        except subprocess.TimeoutExpired:
+            outcome = "timeout"
+        res[name] = {"outcome": outcome, "wall_s": round(time.time() - t0, 1)}
+        if outcome != want:
+            shutil.rmtree(out, ignore_errors=True)
+            raise vlib.ToolError("Apalache %s: outcome %s, expected %s" % (name, outcome, want))
+    shutil.rmtree(out, ignore_errors=True)
+    cov["apalache_inductive_invariant"] = {"module": "spec/apalache/StreamInd.tla", "invariant": "IndInv => CacheSound /\\ ResultOk",
+                                           "obligations": res}
